@@ -75,6 +75,7 @@ fn run_line(line: &str) -> String {
         "EIDNEW" => chan_eid::eidnew(args),
         "EIDCBOR" => chan_eid::eidcbor(args),
         "DEC" => chan_bundle::dec(args),
+        "DECA" => chan_bundle::deca(args),
         "ENC" => chan_bundle::enc(args),
         "CRCV" => chan_bundle::crcv(args),
         "RT" => chan_bundle::rt(args),
